@@ -81,6 +81,7 @@ var (
 	reUbsan = regexp.MustCompile(`runtime error: ([^\n]{0,80})`)
 	reLoc   = regexp.MustCompile(`(?m)^\s+#\d+ 0x[0-9a-f]+ in (wuffs_[a-zA-Z0-9_]+)`)
 	reNum   = regexp.MustCompile(`0x[0-9a-fA-F]+|\d+`)
+	reVerif = regexp.MustCompile(`VERIF-FAIL ([a-z-]+) at ([^:]+:\d+)`)
 )
 
 // Classify turns a dead child's stderr into a crash kind.
@@ -88,6 +89,9 @@ func Classify(stderr string, ws syscall.WaitStatus) string {
 	loc := ""
 	if m := reLoc.FindStringSubmatch(stderr); m != nil {
 		loc = "@" + m[1]
+	}
+	if m := reVerif.FindStringSubmatch(stderr); m != nil {
+		return "checked:" + m[1] + "@" + m[2]
 	}
 	if m := reAsan.FindStringSubmatch(stderr); m != nil {
 		return "asan:" + m[1] + loc
